@@ -36,7 +36,7 @@ MutStmt(m, n, src) ==
 L(v) == <<"lit", v>>
 Arr(es) == <<"arr", es>>
 
-NShapes == 14
+NShapes == 16
 Shape(sh, src, m) ==
   LET mu(n) == MutStmt(m, n, src) IN
   CASE sh = 1  -> <<Asg("a", L(src)), Asg("b", Ref("a")), mu("b"), Ret(Arr(<<Ref("a"), Ref("b")>>))>>
@@ -63,6 +63,9 @@ Shape(sh, src, m) ==
     [] sh = 14 -> <<<<"func", "f", <<"p">>, <<mu("p"), Ret(Ref("p"))>>>>,
                     Asg("arr", Arr(<<L(src)>>)), Asg("r", CallE("f", <<BinE("[]", Ref("arr"), LitI(0))>>)),
                     Ret(Arr(<<BinE("[]", Ref("arr"), LitI(0)), Ref("r"), L(src)>>))>>
+    \* a copy of a FIELD taken before the field's own name is mutated, alone and inside a container
+    [] sh = 15 -> <<Asg("b", Ref("F1")), mu("F1"), Ret(Arr(<<Ref("b"), Ref("F1")>>))>>
+    [] sh = 16 -> <<Asg("c", Arr(<<Ref("F1"), LitI(1)>>)), mu("F1"), mu("F1"), Ret(Arr(<<BinE("[]", Ref("c"), LitI(0)), Ref("F1")>>))>>
 
 \* thorough: after every mutation of a variable a second mutation m2 of the same variable
 RECURSIVE Again(_, _, _)
@@ -83,7 +86,7 @@ RunSeq(prog, obj, n, i, g) ==
 
 Row(sh, src, m, m2) ==
   LET prog == IF m2 = 0 THEN Shape(sh, src, m) ELSE Again(Shape(sh, src, m), Muts[m2], src)
-      obj  == IF sh = 7 THEN <<<<"F1", src>>>> ELSE <<>>
+      obj  == IF sh \in {7, 15, 16} THEN <<<<"F1", src>>>> ELSE <<>>
   IN [k |-> "alias", sh |-> sh, prog |-> prog, fns |-> Host, vars |-> <<>>, errvars |-> TRUE,
       runs |-> RunSeq(prog, obj, 3, 1, <<>>), done |-> TRUE]
 
